@@ -379,6 +379,7 @@ def build(ctx):
     cartesian_obligations(ctx, I, SOcls, Rr, tv, xv)
     string_obligations(ctx, I, SOcls)
     array_like_forms(ctx)
+    independent_results(ctx)
     engine_guard(ctx, I, dec, enc)
     bounded(ctx)
 
@@ -471,6 +472,43 @@ def spec_symm_str(R, k):
                 v += ("-" if R[i][j] < 0 else "+") + "xyz"[j]
         rows.append(v)
     return ",".join(rows)
+
+
+def independent_results(ctx):
+    """G: every decoding returns arrays of its own: editing the matrix form obtained from one call does not change what the next call (same or other spelling) returns,
+    and no decoder is wrapped in a caching decorator (a cache would hand the same mutable arrays to every caller)."""
+    import ast as _ast
+    import chmpy.crystal.symmetry_operation as so
+    from pyvc import source as _src
+    tree = _src.load_module(MOD).tree
+    decorated = {}
+    for n_ in _ast.walk(tree):
+        if isinstance(n_, _ast.FunctionDef):
+            ds = [_ast.unparse(d_) for d_ in n_.decorator_list]
+            if any("cache" in d_ for d_ in ds):
+                decorated[n_.name] = ds
+    bad = []
+    for label, call in (("decode_symm_str('-y,x-y,z+1/3')", lambda: so.decode_symm_str("-y,x-y,z+1/3")), ("decode_symm_str('x,y,z')", lambda: so.decode_symm_str("x,y,z")),
+                        ("decode_symm_int(16484)", lambda: so.decode_symm_int(16484)),
+                        ("SymmetryOperation.from_string_code('x,y,z')", lambda: (lambda o: (o.rotation, o.translation))(so.SymmetryOperation.from_string_code("x,y,z"))),
+                        ("SymmetryOperation.from_integer_code(16484)", lambda: (lambda o: (o.rotation, o.translation))(so.SymmetryOperation.from_integer_code(16484)))):
+        try:
+            r1, t1 = call()
+            want = (np.array(r1, dtype=float, copy=True), np.array(t1, dtype=float, copy=True))
+            r1 = np.asarray(r1)
+            t1 = np.asarray(t1)
+            if r1.flags.writeable:
+                r1[...] = 7.0
+            if t1.flags.writeable:
+                t1[...] = 0.123
+            r2, t2 = call()
+            if not (np.array_equal(np.asarray(r2, dtype=float), want[0]) and np.allclose(np.asarray(t2, dtype=float), want[1])):
+                bad.append({"call": label, "history": "call, overwrite the returned arrays, call again", "second_result_rotation": np.asarray(r2, dtype=float).tolist()})
+        except Exception as e:  # noqa
+            bad.append({"call": label, "raised": repr(e)[:160]})
+    ctx.ground("symmetry_operation/decoders/independent_results", not decorated and not bad, tag="G",
+               clause="decode_symm_str / decode_symm_int / from_string_code / from_integer_code hand out arrays of their own (overwriting one result does not change the next) and none "
+               "of them is wrapped in a caching decorator", detail={"decorated": decorated, "shared": bad[:3]}, witness={"decorated": decorated, "shared": bad[:2]})
 
 
 def array_like_forms(ctx):
